@@ -12,7 +12,9 @@ EXPLANATION = (
     "acquire_active_computation_guard or from the enclosing caller's guard, or is None only under InputSession::refresh. "
     "C04.c: in commit and in the task spawned by Drop the session guard is released only after commit_internal().await completed; "
     "the (batch, guard) pair leaves the session only through take() in those two bodies. C04.d: a session writes only to its own "
-    "batch. C04.e: the mutating session API takes &mut self (exclusivity by the borrow checker).")
+    "batch. C04.e: the mutating session API takes &mut self (exclusivity by the borrow checker). C04.i: dirty propagation starts from "
+    "an empty visited set (C01.p). C04.j: the timestamp a session stores is the epoch it runs in and Sync::new resumes from it, so a "
+    "session after a re-open never re-uses an epoch that stored verifications carry (C07.d).")
 
 NOT_DECIDED = [
     "atomicity as observed through every interleaving of readers and the writer (needs a schedule exploration)",
@@ -328,4 +330,12 @@ def run(ctx):
     from . import C01
     ctx.alias = {"C01.p": "C04.i"}
     ctx.run_clause("C04.i", C01.c01p)
+    ctx.alias = {}
+    # "every reader is evaluated against one input snapshot" also after a re-open: the timestamp a session leaves in the store
+    # is the epoch it really ran in, and Sync::new resumes from it - a stored epoch one behind makes the first session after a
+    # restart re-use the number old verifications carry, and a reader then mixes the new input with derived values verified
+    # against the old one (C07.d as C04.j)
+    from . import C07
+    ctx.alias = {"C07.d": "C04.j"}
+    ctx.run_clause("C04.j", C07.c07d)
     ctx.alias = {}
